@@ -35,6 +35,9 @@ pub struct Target {
     pub default_text: Option<String>,
     /// first / last element of an indexed container, or a boundary of a code table
     pub edge: bool,
+    /// an assignment that cannot change the value: `\\let X=X` for commands, `\\advance X by 0` for arithmetic
+    /// variables. Its scoping effects are those of any assignment (a global one discards every saved value).
+    pub noop_text: Option<String>,
 }
 
 #[derive(Clone, Copy, PartialEq, Eq, Debug)]
@@ -71,6 +74,10 @@ fn with_prefixes(mut f: Form, name: &'static str, prefixes: Prefixes) -> Form {
 fn prefixed_def(name: &'static str, prefixes: Prefixes, lhs: &'static str, base: usize) -> Form {
     Form { name, gdef: false, prefixes, text: Box::new(move |i| format!("\\def{lhs}{{{}}}", base + i)), apply: Box::new(move |_, i| (base + i).to_string()) }
 }
+/// `\\let X=X`
+fn self_alias(lhs: &str) -> String {
+    format!("\\let{lhs}={}", exec_probe(lhs))
+}
 fn letter(base: u8, i: usize) -> char {
     (base + (i % 26) as u8) as char
 }
@@ -102,7 +109,7 @@ fn int_target(name: &'static str, lhs: &'static str, initial: i64, setup: &str, 
         // \global\global is one \global (TeX §1211; prefix.rs test global_squared)
         forms.push(with_prefixes(abs_form("", move |i| format!("{lhs}={} ", 70 + i), |i| (70 + i).to_string()), "set-global-twice", ("", "\\global\\global")));
     }
-    Target { name, setup: setup.into(), probe: format!("\\the{lhs} "), initial: initial.to_string(), forms, default_text: Some(format!("{lhs}={initial} ")), edge }
+    Target { name, setup: setup.into(), probe: format!("\\the{lhs} "), initial: initial.to_string(), forms, default_text: Some(format!("{lhs}={initial} ")), edge, noop_text: Some(format!("\\advance{lhs} by 0 ")) }
 }
 
 fn pt(obs: &str) -> (i64, i64) {
@@ -149,6 +156,7 @@ pub fn kinds() -> Vec<Kind> {
         ],
         default_text: Some(format!("{lhs}=0pt ")),
         edge,
+        noop_text: Some(format!("\\advance{lhs} by 0pt ")),
     };
     v.push(Kind { name: "dimen", class: Class::Variable, setup: String::new(), targets: vec![dimen("dimen1", "\\dimen1", false), dimen("dimen32767", "\\dimen32767", true)], nvals: NV });
     let skip = |name: &'static str, lhs: &'static str| Target {
@@ -171,6 +179,7 @@ pub fn kinds() -> Vec<Kind> {
         ],
         default_text: Some(format!("{lhs}=0pt ")),
         edge: true,
+        noop_text: Some(format!("\\advance{lhs} by 0pt ")),
     };
     v.push(Kind { name: "skip", class: Class::Variable, setup: String::new(), targets: vec![skip("skip0", "\\skip0"), skip("skip32767", "\\skip32767")], nvals: NV });
     // token lists hold non-ASCII text (2-, 3- and 4-byte characters)
@@ -179,7 +188,7 @@ pub fn kinds() -> Vec<Kind> {
         if let Some(a) = alias {
             forms.push(abs_form("set-through-alias", move |i| format!("{a}={{{}}}", 50 + i), |i| (50 + i).to_string()));
         }
-        Target { name, setup: setup.into(), probe: format!("\\the{lhs} "), initial: String::new(), forms, default_text: Some(format!("{lhs}={{}}")), edge: true }
+        Target { name, setup: setup.into(), probe: format!("\\the{lhs} "), initial: String::new(), forms, default_text: Some(format!("{lhs}={{}}")), edge: true, noop_text: None }
     };
     v.push(Kind { name: "toks", class: Class::Variable, setup: String::new(), targets: vec![toks("toks0", "\\toks0", "\\toksdef\\ta=0 ", Some("\\ta")), toks("toks255", "\\toks255", "", None)], nvals: NV });
     // `idx` is how the character is written after \catcode / \mathcode: `\| or a number
@@ -192,6 +201,7 @@ pub fn kinds() -> Vec<Kind> {
         forms: vec![abs_form("set", move |i| format!("\\catcode{idx}={} ", CATS[i % CATS.len()]), |i| CATS[i % CATS.len()].to_string())],
         default_text: Some(format!("\\catcode{idx}=12 ")),
         edge,
+        noop_text: None,
     };
     // low table: 0..=127, high table: everything above
     v.push(Kind { name: "catcode-low", class: Class::Variable, setup: String::new(), targets: vec![cat("catcode |", "`\\|", false), cat("catcode 127", "127", true)], nvals: CATS.len() });
@@ -205,6 +215,7 @@ pub fn kinds() -> Vec<Kind> {
         forms: vec![abs_form("set", move |i| format!("\\mathcode{idx}={} ", if i == 2 { 32767 } else { i + 1 }), |i| (if i == 2 { 32767 } else { i + 1 }).to_string())],
         default_text: Some(format!("\\mathcode{idx}=777 ")),
         edge: true,
+        noop_text: None,
     };
     // character 0 (first of the low table) and U+10FFFF (the last one)
     v.push(Kind { name: "mathcode", class: Class::Variable, setup: String::new(), targets: vec![mathcode("mathcode 0", "0"), mathcode("mathcode 1114111", "1114111")], nvals: NV });
@@ -212,7 +223,7 @@ pub fn kinds() -> Vec<Kind> {
         name: "endlinechar",
         class: Class::Variable,
         setup: String::new(),
-        targets: vec![Target { name: "endlinechar", setup: "\\endlinechar=13 ".into(), probe: "\\the\\endlinechar ".into(), initial: "13".into(), forms: vec![abs_form("set", |i| format!("\\endlinechar={} ", if i == 1 { -1 } else { 65 + i as i64 }), |i| (if i == 1 { -1 } else { 65 + i as i64 }).to_string())], default_text: Some("\\endlinechar=13 ".into()), edge: false }],
+        targets: vec![Target { name: "endlinechar", setup: "\\endlinechar=13 ".into(), probe: "\\the\\endlinechar ".into(), initial: "13".into(), forms: vec![abs_form("set", |i| format!("\\endlinechar={} ", if i == 1 { -1 } else { 65 + i as i64 }), |i| (if i == 1 { -1 } else { 65 + i as i64 }).to_string())], default_text: Some("\\endlinechar=13 ".into()), edge: false, noop_text: Some("\\advance\\endlinechar by 0 ".into()) }],
         nvals: NV,
     });
     v.push(Kind { name: "time-singleton", class: Class::Variable, setup: String::new(), targets: vec![int_target("year", "\\year", 2000, "", None, false), int_target("month", "\\month", 1, "", None, false)], nvals: NV });
@@ -237,6 +248,7 @@ pub fn kinds() -> Vec<Kind> {
         ],
         default_text: None,
         edge: false,
+        noop_text: Some(self_alias(lhs)),
     };
     v.push(Kind { name: "macro", class: Class::ControlSequence, setup: String::new(), targets: vec![mac("\\ma", "\\ma"), mac("\\€", "\\€")], nvals: NV });
     v.push(Kind { name: "macro-active", class: Class::ActiveChar, setup: String::new(), targets: vec![mac("~", "~"), mac("é", "é")], nvals: NV });
@@ -252,6 +264,7 @@ pub fn kinds() -> Vec<Kind> {
         ],
         default_text: None,
         edge: false,
+        noop_text: Some(self_alias(lhs)),
     };
     v.push(Kind { name: "let", class: Class::ControlSequence, setup: xdefs.clone(), targets: vec![lett("\\la", "\\la"), lett("\\😀", "\\😀")], nvals: NV });
     v.push(Kind { name: "let-active", class: Class::ActiveChar, setup: xdefs.clone(), targets: vec![lett("~", "~"), lett("€", "€")], nvals: NV });
@@ -264,6 +277,7 @@ pub fn kinds() -> Vec<Kind> {
         forms: vec![abs_form("countdef", move |i| format!("\\countdef{lhs}={} ", alias_index(i, 32767)), |i| (100 + i).to_string())],
         default_text: Some(format!("\\countdef{lhs}=9 ")),
         edge: false,
+        noop_text: Some(self_alias(lhs)),
     };
     v.push(Kind { name: "countdef", class: Class::ControlSequence, setup: counts.clone(), targets: vec![cdef("\\cd", "\\cd"), cdef("\\ce", "\\ce")], nvals: NV });
     v.push(Kind { name: "countdef-active", class: Class::ActiveChar, setup: counts.clone(), targets: vec![cdef("~", "~"), cdef("😀", "😀")], nvals: NV });
@@ -276,6 +290,7 @@ pub fn kinds() -> Vec<Kind> {
         forms: vec![abs_form("toksdef", move |i| format!("\\toksdef{lhs}={} ", alias_index(i, 255)), |i| format!("T{i}"))],
         default_text: Some(format!("\\toksdef{lhs}=9 ")),
         edge: false,
+        noop_text: Some(self_alias(lhs)),
     };
     v.push(Kind { name: "toksdef", class: Class::ControlSequence, setup: tokss, targets: vec![tdef("\\td", "\\td"), tdef("\\te", "\\te")], nvals: NV });
     // \chardef values: letters, a 3-byte character (8364 = €) and U+10FFFF
@@ -294,6 +309,7 @@ pub fn kinds() -> Vec<Kind> {
         forms: vec![abs_form("chardef", move |i| format!("\\chardef{lhs}={} ", chr(i)), |i| char::from_u32(chr(i)).unwrap().to_string())],
         default_text: None,
         edge: false,
+        noop_text: Some(self_alias(lhs)),
     };
     v.push(Kind { name: "chardef", class: Class::ControlSequence, setup: String::new(), targets: vec![chdef("\\ch", "\\ch"), chdef("\\ß", "\\ß")], nvals: NV });
     v.push(Kind { name: "chardef-active", class: Class::ActiveChar, setup: String::new(), targets: vec![chdef("~", "~"), chdef("!", "!")], nvals: NV });
@@ -305,6 +321,7 @@ pub fn kinds() -> Vec<Kind> {
         forms: vec![abs_form("mathchardef", move |i| format!("\\mathchardef{lhs}={} ", if i == 2 { 32767 } else { i + 1 }), |i| (if i == 2 { 32767 } else { i + 1 }).to_string())],
         default_text: Some(format!("\\mathchardef{lhs}=999 ")),
         edge: false,
+        noop_text: Some(self_alias(lhs)),
     };
     v.push(Kind { name: "mathchardef", class: Class::ControlSequence, setup: String::new(), targets: vec![mcdef("\\mc", "\\mc"), mcdef("\\md", "\\md")], nvals: NV });
     // ---------------------------------------------------------------- current font (\fna..\fns = 1..19, \fnt = 65535, \fnz = 0 = null font)
@@ -330,6 +347,7 @@ pub fn kinds() -> Vec<Kind> {
             ],
             default_text: Some("\\fnz ".into()),
             edge: false,
+            noop_text: None,
         }],
         nvals: NV,
     });
@@ -340,7 +358,7 @@ pub fn kinds() -> Vec<Kind> {
         name: "globaldefs",
         class: Class::GlobalDefs,
         setup: String::new(),
-        targets: vec![Target { name: "globaldefs", setup: String::new(), probe: "\\the\\globaldefs ".into(), initial: "0".into(), forms: vec![gd("=1", [1, 2147483647]), gd("=-1", [-1, -2147483647]), gd("=0", [0, 0])], default_text: None, edge: false }],
+        targets: vec![Target { name: "globaldefs", setup: String::new(), probe: "\\the\\globaldefs ".into(), initial: "0".into(), forms: vec![gd("=1", [1, 2147483647]), gd("=-1", [-1, -2147483647]), gd("=0", [0, 0])], default_text: None, edge: false, noop_text: None }],
         nvals: NV,
     });
     v
